@@ -203,7 +203,7 @@ def _case(seed: int) -> Dict[str, Any]:
                 cfile = src_file.replace(".json", "_with_counters.json")
                 g = None
                 try:
-                    g, ok = ta.critical_path_analysis(rank=0, annotation="ProfilerStep", instance_id=0)
+                    g, ok = rt.lib(fails, "critical_path_analysis", inp, ta.critical_path_analysis, rank=0, annotation="ProfilerStep", instance_id=0, _allow=(AssertionError,))
                 except AssertionError:
                     ok = False
                 steps = [("counters", None)]
